@@ -688,7 +688,7 @@ func (s *subOracle) onAttestation(node int, call *bcastCall, a *eth2spec.Version
 		val := s.valByIndex(*a.ValidatorIndex)
 		// whose signature it is: the validator of the call's entry (the recorder's oracle (i) verified it there)
 		signer := (*cluster.Validator)(nil)
-		if entry != nil && entry.val != nil && tbls.Verify(entry.val.PubKey, sr[:], tbls.Signature(sig)) == nil {
+		if entry != nil && entry.val != nil && entry.val != val && tbls.Verify(entry.val.PubKey, sr[:], tbls.Signature(sig)) == nil {
 			signer = entry.val
 		}
 		if signer != nil && signer != val {
@@ -719,6 +719,16 @@ func (s *subOracle) onAttestation(node int, call *bcastCall, a *eth2spec.Version
 				val = v
 			}
 		}
+	}
+	if entry != nil && entry.val != nil && entry.val != val && tbls.Verify(entry.val.PubKey, sr[:], tbls.Signature(sig)) == nil {
+		sigID := "pre-electra-attestation-attributed-to-another-validator-than-the-signer"
+		if cur.electra {
+			// the (unsigned) container of an aggregate comes from one of the partials: Electra data (index 0) in a
+			// Deneb container is attributed through committee 0
+			sigID = "electra-data-aggregated-in-a-pre-electra-container-attributed-to-another-validator-than-the-signer"
+		}
+		c.Violate("C01", "submitted-invalid-group-signature", sigID, "node %d handed %s to its beacon node: the signature is validator %d's group signature over this data, but committee %d and aggregation bits %x name another attester (cluster validator: %v)", node, what, entry.val.Index, data.Index, []byte(bits), val != nil)
+		return
 	}
 	if val == nil {
 		c.Violate("C01", "unknown-validator", "attestation-submitted-for-validator-outside-cluster", "node %d handed %s to its beacon node; committee %d and aggregation bits %x belong to no cluster validator", node, what, data.Index, []byte(bits))
